@@ -44,6 +44,7 @@ def parseOp : List String → Option Op
   | ["sig", k] => some (.signal k)
   | ["cmd"] => some .sendCommand
   | ["prompt"] => some .childPrompt
+  | ["exit", "+"] => some (.childExit none)          -- a hard exit with a positive exit status: no result, like a kill
   | ["exit", r] => do pure (.childExit (← optN r))
   | ["exitx", r] => do pure (.childExit (← optN r))     -- a plugin's on_end_run raises: same observable protocol
   | _ => none
